@@ -86,7 +86,8 @@ def plan(tier, seed):
 def required(tier):
     kinds = ['missing-required', 'extra-field-set', 'missing-field-set',
              'identified-into-unidentified', 'unidentified-into-identified']
-    cl = ['A:missing-required@0-file-creation-pending']
+    cl = ['A:missing-required@0-file-creation-pending',
+          'A:rejected-first-add-of-other-identification-kind']
     for kd in kinds:
         cl += [f'A:{kd}@middle', f'A:{kd}@append-first', f'A:{kd}@append-later']
     cl += [f'B:{r}' for r in ('list-and-pattern', 'pattern-without-range', 'missing-input',
@@ -201,6 +202,11 @@ def add_faults(rng, workdir, rec, k):
     def mk_bad(kind):
         if kind == 'missing-required':
             t = mk_good()
+            if not model and flip_first[0]:
+                # nothing stored yet: the rejected trajectory may just as well be of the
+                # other identification kind - the store must not remember anything of it
+                t = mk(None if identified else new_id(), with_other)
+                rec.cls('A:rejected-first-add-of-other-identification-kind')
             f = rng.choice(['starting_mass', 'total_fuel_mass'] + (['o_s'] if with_other else []))
             t._data[f] = None           # == the field was never set
             return t, f
@@ -213,6 +219,8 @@ def add_faults(rng, workdir, rec, k):
         if kind == 'unidentified-into-identified':
             return mk(None, with_other), None
         raise AssertionError(kind)
+
+    flip_first = [rng.random() < 0.5]
 
     def applicable():
         ks = ['missing-required']
@@ -381,7 +389,11 @@ def check_merged(out: Path, inputs, identified, M, ctx):
     from vlib import trajgen
 
     model = [s for _, snaps in inputs for s in snaps]
-    st = TrajectoryStore.open(base_file=out)
+    try:
+        st = TrajectoryStore.open(base_file=out)
+    except Exception as e:  # noqa: BLE001
+        raise M('merged directory announces completeness but cannot be opened',
+                {'error': f'{type(e).__name__}: {str(e)[:200]}', **ctx})
     try:
         if len(st) != len(model):
             raise M('merged directory announces completeness but lacks parts',
@@ -393,7 +405,11 @@ def check_merged(out: Path, inputs, identified, M, ctx):
                         {'index': i, 'diffs': df[:3], **ctx})
         if identified:
             for i, s in enumerate(model):
-                got = st.get_flight(s['flight_id'])
+                try:
+                    got = st.get_flight(s['flight_id'])
+                except Exception as e:  # noqa: BLE001
+                    raise M('merged directory announces completeness but id lookup fails',
+                            {'error': f'{type(e).__name__}: {str(e)[:200]}', **ctx})
                 if got is None or trajgen.fingerprint(got) != trajgen.fingerprint(s):
                     raise M('merged directory id lookup broken',
                             {'flight_id': s['flight_id'], **ctx})
